@@ -193,7 +193,7 @@ def get_units():
 # The round-trip lemmas above show the receiver hands the decoder exactly the PDU of m (function code + encode()).  That the
 # message the decoder makes from those bytes equals m is the per-class lemma below: real encode, real ServerDecoder/ClientDecoder
 # (function-code and sub-function lookup included), per message class of the S-PDU table.
-REMAP = {'C02-F1': 'C03-F3', 'C02-F2': 'C03-F4', 'C02-F3': 'C03-F5'}
+REMAP = {'C02-F1': 'C03-F3', 'C02-F2': 'C03-F4', 'C02-F3': 'C03-F5', 'C02-F5': 'C03-F6'}
 _units_oracle = get_units
 
 
